@@ -414,10 +414,13 @@ theorem C16_defect_bind_none_caps_workers :
       (fun r => r.workers == 8 && cfgLookup r.cfg "pika.os_threads" == "9") = true := by rfl
 
 set_option maxRecDepth 100000 in
-/-- `PIKA_COMMANDLINE_OPTIONS` ending in a numeric option makes start-up fail as soon as the real
-    command line has any argument: the late re-parse glues the two (`--pika:pu-offset=0input.dat`). -/
-theorem C16_defect_late_reparse_glues_arguments :
-    isError (resolve m84 ⟨[("PIKA_COMMANDLINE_OPTIONS", "--pika:pu-offset=0")], ["input.dat"]⟩) .lateParse = true := by rfl
+/-- Regression for a defect of the pinned tree repaired on branch hooks-C16 (`fix:` commit, see
+    findings/C16-late-reparse-pinned-tree.json): `PIKA_COMMANDLINE_OPTIONS` ending in a numeric option
+    no longer makes start-up fail when the real command line has arguments (the late re-parse used to
+    glue the two: `--pika:pu-offset=0input.dat`). -/
+theorem C16_fixed_late_reparse :
+    okWith (resolve m84 ⟨[("PIKA_COMMANDLINE_OPTIONS", "--pika:pu-offset=0")], ["input.dat"]⟩)
+      (fun r => r.argv == ["input.dat"] && r.workers == 4) = true := by rfl
 
 /-! ## non-vacuity -/
 
